@@ -7,7 +7,8 @@ open SwV.Drv SwV.Model.C08 SwV.Model.C24 SwV.Spec.C24
 
 structure St where
   stored : List (String × Entry) := []     -- path ↦ what the store holds (model)
-  written : List (String × Entry) := []    -- path ↦ what the writer passed (spec side)
+  written : List (String × Entry) := []    -- path ↦ what the writer passed (spec side; links of one file share it)
+  hl : List (String × Entry) := []         -- hard link id ↦ blob kept under the id (model)
 
 def fidOfTok (s : String) : Option Fid :=
   match s.splitOn ":" with
@@ -51,7 +52,13 @@ def step (st : St) (n : Nat) (ln : Line) : St × List String :=
     let model := ["ok", toString (firstTag b), "0"]
     -- judge (no_false_gzip): the marshalled entry must not look like gzip
     let j := if o.getD 2 "0" == "1" then [specfail n "EncodeAttributesAndChunks/looks-like-gzip" path] else []
-    let st' := if o.getD 0 "" == "ok" then { st with stored := setE st.stored path b, written := setE st.written path e } else st
+    let h := hardLinkId e
+    -- spec side: every path that is a link of the same file now denotes the new content
+    let shareW := fun (l : List (String × Entry)) => if h == "-" then l else l.map fun p => if hardLinkId p.2 == h then (p.1, e) else p
+    let shared := h != "-" && st.written.any fun p => p.1 != path && hardLinkId p.2 == h
+    let st' := if o.getD 0 "" == "ok" then
+        { st with stored := setE st.stored path b, written := setE (shareW st.written) path e,
+                  hl := if h == "-" then st.hl else setE st.hl h b } else st
     let cov := [if e.chunks.length > 50 then "COV put.over-50-chunks" else "COV put.upto-50-chunks", s!"COV put.{a.getD 0 ""}"]
       ++ (if e.chunks.any (fun c => c.fileId ≠ [] ∧ (parseFid c.fileId).isNone) then ["COV put.unparseable-file-id"] else [])
       ++ (if e.chunks.any (fun c => c.fileId ≠ [] ∧ canonId c.fileId ≠ c.fileId) then ["COV put.noncanonical-file-id"] else [])
@@ -61,6 +68,7 @@ def step (st : St) (n : Nat) (ln : Line) : St × List String :=
       ++ (if e.mime = octetStream then ["COV put.octet-stream"] else [])
       ++ (if (e.tail.getD 3 "-").startsWith "1f8b" then ["COV put.content-gzip-magic"] else [])
       ++ (if e.tail.getD 1 "-" != "-" then ["COV put.hardlink"] else [])
+      ++ (if shared then ["COV put.shared-hardlink"] else [])
       ++ (if e.tail.getD 4 "-" != "-" then ["COV put.remote"] else [])
       ++ (if e.tail.getD 0 "-" != "-" then ["COV put.extended"] else [])
     (st', diff n ln model ++ j ++ cov)
@@ -72,7 +80,7 @@ def step (st : St) (n : Nat) (ln : Line) : St × List String :=
     match st.stored.lookup path with
     | none => (st, diff n ln ["notfound"] ++ [s!"COV {ln.op}.absent"])
     | some b =>
-      let m := if raw then b else afterEntry b
+      let m := if raw then readRaw b (st.hl.lookup (hardLinkId b)) else readResolved b (st.hl.lookup (hardLinkId b))
       let model := "ok" :: toksOfEntry m
       let j := match st.written.lookup path with
         | none => []
